@@ -176,6 +176,34 @@ statics_snapshot(void)
         memcpy(st_copy_bss, __start_isal_bss, nb);
 }
 
+/* bytes changed in the writable statics that are NOT part of an 8-byte word now holding the address of a library
+ * function (= something other than a dispatch binding was written) */
+int
+statics_nonbinding(void)
+{
+        size_t nd = (size_t) (__stop_isal_data - __start_isal_data), nb = (size_t) (__stop_isal_bss - __start_isal_bss);
+        int n = 0;
+        if (!st_copy_data)
+                return 0;
+        for (size_t i = 0; i < nd; i++)
+                if (st_copy_data[i] != __start_isal_data[i]) {
+                        /* part of some 8-byte window (slots need not be 8-aligned) that now holds a function address? */
+                        int binding = 0;
+                        for (size_t w = (i >= 7 ? i - 7 : 0); w <= i && w + 8 <= nd && !binding; w++) {
+                                void *val;
+                                memcpy(&val, __start_isal_data + w, 8);
+                                if (sym_name(val))
+                                        binding = 1;
+                        }
+                        if (!binding)
+                                n++;
+                }
+        for (size_t i = 0; i < nb; i++)
+                if (st_copy_bss[i] != __start_isal_bss[i])
+                        n++;
+        return n;
+}
+
 int
 statics_diff(char *sym, size_t cap)
 {
@@ -434,6 +462,7 @@ vcall(void *fn, int nargs, const uint64_t *args, obs *o)
                 }
         }
         o->static_changed = vc_parallel ? 0 : statics_diff(o->static_sym, sizeof o->static_sym);
+        o->static_nonbinding = (vc_parallel || !o->static_changed) ? 0 : statics_nonbinding();
         if (!o->fault) {
                 const uint64_t *got = &vc_regs.rbx;
                 for (int i = 0; i < 6; i++)
@@ -576,9 +605,9 @@ void
 ev_obs(const obs *o)
 {
         evp(",\"obs\":{\"fault\":%d,\"fw\":\"%s\",\"cs\":%d,\"rsp\":%lld,\"df\":%d,\"mx\":%d,\"fcw\":%d,\"above\":%d,"
-            "\"can\":%d,\"inp\":%d,\"bad\":\"%s\",\"st\":%d,\"stsym\":\"%s\",\"su\":%llu}",
+            "\"can\":%d,\"inp\":%d,\"bad\":\"%s\",\"st\":%d,\"stx\":%d,\"stsym\":\"%s\",\"su\":%llu}",
             o->fault, o->fault ? o->fault_where : "", o->cs_bad, (long long) o->rsp_delta, o->df, o->mxcsr_same,
-            o->x87_same, o->above_ok, o->canary_ok, o->inputs_ok, o->bad_buf, o->static_changed,
+            o->x87_same, o->above_ok, o->canary_ok, o->inputs_ok, o->bad_buf, o->static_changed, o->static_nonbinding,
             o->static_changed ? o->static_sym : "", (unsigned long long) o->stack_used);
         if (vc_dump_secrets && !o->fault) {
                 ev_hex("zmm", vc_regs.zmm, sizeof vc_regs.zmm);
